@@ -1,6 +1,7 @@
 """Effect rules: PURE-observers (C15, C06), AUTH-sketch-record / PAIR-readop-once / CONST-masks (C14),
 removal-cause classification shared with C03/C07."""
 from .core import RuleResult, CheckFailure
+from .roles import CHAN_RECV
 from .roles import named
 from .kernel import norm
 from .roles import (get_roles, HASHMAP_MUT, HASHMAP_REMOVE, HASHMAP_INSERT, DASHMAP_MUT, DASHMAP_REMOVE, CHAN_SEND, SKETCH)
@@ -191,7 +192,7 @@ def rule_auth_sketch_record(ctx):
             ok, why = True, 'unsync get records the lookup'
         elif c.startswith('sync::'):
             # must consume ReadOps: calls Receiver::try_recv
-            ok = 'crossbeam_channel::Receiver::try_recv' in R.ext_calls[c]
+            ok = bool(CHAN_RECV & set(R.ext_calls[c]))
             why = 'applies queued ReadOps' if ok else 'increments the sketch without consuming a ReadOp'
         else:
             ok, why = False, 'unexpected caller of the sketch increment'
@@ -210,10 +211,10 @@ def rule_auth_sketch_record(ctx):
                 tg, ext, _ = prog.call_targets(b, t)
                 if set(tg) & inc:
                     leaves = ctx.orig.of_operand(b, t['args'][1]) if len(t['args']) > 1 else {}
-                    from_recv = any(l[0] == 'call' and str(l[1]).endswith('Receiver::try_recv') for l in leaves)
+                    from_recv = any(l[0] in ('call', 'via') and str(l[1]) in CHAN_RECV for l in leaves)
                     recv_ty = ''
                     for bj, t2 in b.calls():
-                        if prog.call_targets(b, t2)[1] == 'crossbeam_channel::Receiver::try_recv':
+                        if prog.call_targets(b, t2)[1] in CHAN_RECV:
                             recv_ty += t2.get('self_ty', {}).get('s', '')
                     ok = from_recv and 'ReadOp' in recv_ty and 'WriteOp' not in recv_ty
                     r.instance(function=c, increment_line=t.get('line'), hash_from_try_recv=from_recv, channel=recv_ty[:80], ok=ok)
